@@ -203,7 +203,50 @@ def replay_units(case) -> dict:
     return dict(failures=fails, classes={"units": 1})
 
 
+def replay_gauss(case) -> dict:
+    """from_gaussian geometry: pixel shape, centre (TLC's exact rational per axis), profile, point symmetry."""
+    from acryo import pipe
+
+    ax = case["axes"]
+    scale = ax[0]["scale10"] / 10
+    shape_nm = tuple(a["shape10"] / 10 for a in ax)
+    shift = tuple(a["shift10"] / 10 for a in ax)
+    desc = dict(part="gauss", shape_nm=list(shape_nm), scale=scale, shift=list(shift), integral=all(a["shape10"] % a["scale10"] == 0 for a in ax))
+    fails = []
+    g = np.asarray(engine.api(pipe.from_gaussian(shape=shape_nm, sigma=1.0, shift=shift), scale), dtype=np.float64)
+    shp = tuple(a["n"] for a in ax)
+    if g.shape != shp:
+        return dict(failures=[dict(desc, clause="GaussianShape", observed=list(g.shape), expected=list(shp))])
+    c = np.array([a["c"][0] / a["c"][1] for a in ax])
+    am = np.array(np.unravel_index(int(np.argmax(g)), g.shape))
+    if np.max(np.abs(am - c)) > 0.5 + 1e-6:
+        fails.append(dict(desc, clause="GaussianCentre", argmax=am.tolist(), centre=c.tolist()))
+    zz, yy, xx = np.indices(shp)
+    ref = np.exp(-0.5 * (((zz - c[0]) ** 2 + (yy - c[1]) ** 2 + (xx - c[2]) ** 2) / (1.0 / scale) ** 2))
+    if np.max(np.abs(g - ref)) > 1e-5:
+        fails.append(dict(desc, clause="GaussianProfile", maxerr=float(np.max(np.abs(g - ref)))))
+    if all(x == 0 for x in shift) and np.max(np.abs(g - g[::-1, ::-1, ::-1])) > 1e-5:
+        fails.append(dict(desc, clause="GaussianPointSymmetric"))
+    return dict(failures=fails, classes={"gauss": 1})
+
+
+def _gauss_cases(table) -> list[dict]:
+    by = {}
+    for a in sorted(table["axes"], key=lambda a: (a["scale10"], a["shift10"], a["shape10"])):
+        by.setdefault(a["scale10"], []).append(a)
+    out = []
+    for sc, axes in sorted(by.items()):
+        zero = [a for a in axes if a["shift10"] == 0]
+        for i in range(len(zero)):  # unshifted, mixed shapes
+            out.append(dict(kind="gauss", axes=[zero[i], zero[(i + 1) % len(zero)], zero[(i + 3) % len(zero)]]))
+        for i in range(0, len(axes), 2):  # shifted, mixed shapes and shifts
+            out.append(dict(kind="gauss", axes=[axes[i], axes[(i + 5) % len(axes)], axes[(i + 11) % len(axes)]]))
+    return out
+
+
 def replay(case) -> dict:
+    if case["kind"] == "gauss":
+        return replay_gauss(case)
     return replay_units(case) if case["kind"] == "units" else replay_prog(case)
 
 
@@ -211,12 +254,14 @@ def run(rep: engine.Report, tier: str, seed: int):
     mc = rep.add_tlc(engine.tlc("MC_C19", "MC_C19", workers=1))
     cases = mc.emitted
     units = [c for c in cases if c.get("kind") == "units"]
-    progs = [c for c in cases if c.get("kind") != "units"]
-    if not progs or not units:
+    gtab = [c for c in cases if c.get("kind") == "gauss"]
+    progs = [c for c in cases if c.get("kind") not in ("units", "gauss")]
+    if not progs or not units or not gtab:
         raise engine.MachineryError("MC_C19 emitted nothing")
-    allc = progs + units
+    gauss = _gauss_cases(gtab[0])
+    allc = progs + units + gauss
     results = engine.parallel_replay("harness.props.c19", "replay", allc, chunksize=64)
-    engine.collect(rep, allc, results, key=lambda c: c if c["kind"] == "units" else (c["e"], c["s2"]))
+    engine.collect(rep, allc, results, key=lambda c: c if c["kind"] in ("units", "gauss") else (c["e"], c["s2"]))
     rep.exhaustive = True
     rep.traces_validated = len(allc)
     rep.samples = [dict(e=progs[0]["e"], s2=progs[0]["s2"], value=progs[0]["value"]), dict(e=progs[-1]["e"], value=progs[-1]["value"])]
@@ -225,7 +270,9 @@ def run(rep: engine.Report, tier: str, seed: int):
         f"{{2, -3}} and the 10 operators (both operand orders, scalar on either side, pipeline x pipeline) at scales 1/2, 1, 2, and all 54 "
         f"associativity triples ({len(progs)} programs, all rebuilt from real ImageProvider/ImageConverter objects and evaluated); plus one "
         "physical-unit case (nm->pixel radius table and ball sizes from TLC; unit covariance of 9 converters/providers for 3 factors, "
-        "Gaussian provider centre/profile/shape, rescaling providers, extensivity and range of mask converters, loader normalize_input)"
+        "Gaussian provider centre/profile/shape, rescaling providers, extensivity and range of mask converters, loader normalize_input); "
+        f"{len(gauss)} from_gaussian calls against TLC's exact per-axis geometry (pixel shape, rational centre) for shape/scale quotients "
+        "integral and not, shifted and not (shape, centre, profile, point symmetry when unshifted)"
     )
 
 
